@@ -227,29 +227,20 @@ std::optional<StructuredData> Unpacker::UnpackSet(const Typification& type) {
   auto result = Factory::EmptySet();
   auto& modifiableResult = result.ModifyB();
 
-  if (auto count = input.at(pos_x).at(base_y); count != SDCompact::unknownCount) {
-    for (; pos_x < size(input) && count > 0; ++pos_x, --count) {
-      pos_y = base_y + 1;
-      if (!ReadElementInto(modifiableResult, baseType)) {
-        return std::nullopt;
-      }
-    }
-    if (count == 0) {
-      --pos_x;
-      return result;
-    } else {
+  // Note: unknownCount is also a legal cardinality, so it is read as "at most that many elements, or until input ends"
+  const auto declared = input.at(pos_x).at(base_y);
+  auto count = declared;
+  for (; pos_x < size(input) && count > 0; ++pos_x, --count) {
+    pos_y = base_y + 1;
+    if (!ReadElementInto(modifiableResult, baseType)) {
       return std::nullopt;
     }
-  } else {
-    for (; pos_x < size(input); ++pos_x) {
-      pos_y = base_y + 1;
-      if (!ReadElementInto(modifiableResult, baseType)) {
-        return std::nullopt;
-      }
-    }
-    --pos_x;
-    return result;
   }
+  if (count != 0 && declared != SDCompact::unknownCount) {
+    return std::nullopt;
+  }
+  --pos_x;
+  return result;
 }
 
 } // anonymous namespace
